@@ -645,7 +645,7 @@ func checkDisabled(c Case, es graphql.ExecutableSchema, schema *ast.Schema) *vfr
 }
 
 func gen(t *rapid.T) Case {
-	s := sdlgen.Generate(t, sdlgen.Options{Files: rapid.IntRange(1, 2).Draw(t, "files"), Roots: true, ExoticDefaults: true, DeprecatedInputs: true, MaxTypes: 12})
+	s := sdlgen.Generate(t, sdlgen.Options{Files: rapid.IntRange(1, 2).Draw(t, "files"), Roots: true, ExoticDefaults: true, RichDirectiveArgs: true, DeprecatedInputs: true, MaxTypes: 12})
 	c := Case{Files: s.Files, Shape: rapid.SampledFrom([]string{"standard", "standard", "aliased", "by-variable"}).Draw(t, "shape"), Disabled: rapid.IntRange(0, 4).Draw(t, "disabled") == 0}
 	schema, err := load(c.Files)
 	if err != nil {
